@@ -10,6 +10,7 @@ import (
 
 	"verif/fw"
 	"verif/refspec"
+	"verif/refssz"
 	"verif/sim"
 )
 
@@ -27,7 +28,7 @@ func init() {
 		Batches:      func(tier string) int { return 16 },
 		ChildTimeout: func(string) time.Duration { return 30 * time.Minute },
 		Run:          runC13,
-		Required:     []string{"genesis_compared", "kickstart_compared", "validity_true", "validity_false", "deposit_valid_new", "deposit_bad_pop", "deposit_topup", "deposit_invalid_pubkey", "deposit_undecodable_sig", "deposit_over_cap", "deposit_below_max", "invalid_proof_rejected", "refused_small_registry_not_judged"},
+		Required:     []string{"genesis_compared", "kickstart_compared", "kickstart_with_signatures_compared", "kickstart_wrong_key_refused", "validity_true", "validity_false", "deposit_valid_new", "deposit_bad_pop", "deposit_topup", "deposit_invalid_pubkey", "deposit_undecodable_sig", "deposit_over_cap", "deposit_below_max", "invalid_proof_rejected", "refused_small_registry_not_judged"},
 	})
 }
 
@@ -254,7 +255,9 @@ func runC13(b *fw.B) {
 			k := rng.IntN(total)
 			bad[k].Proof[rng.IntN(33)][rng.IntN(32)] ^= 1
 			var err error
-			if b.NoPanic("GenesisFromEth1/panic", func() { _, _, err = phase0.GenesisFromEth1(zspec, common.Root(hash), common.Timestamp(eth1Time), bad, false) }) {
+			if b.NoPanic("GenesisFromEth1/panic", func() {
+				_, _, err = phase0.GenesisFromEth1(zspec, common.Root(hash), common.Timestamp(eth1Time), bad, false)
+			}) {
 				if err == nil {
 					b.Violate("GenesisFromEth1/invalid-proof-accepted", fmt.Sprintf("a deposit list with a corrupted Merkle proof at deposit %d was accepted", k), nil)
 				} else {
@@ -315,6 +318,54 @@ func runC13(b *fw.B) {
 				continue
 			}
 			b.Inc("kickstart_compared")
+			// KickStartStateWithSignatures: the same validator data plus the secret keys must give the same state;
+			// a key that does not belong to its pubkey must be refused
+			if len(kv) <= 64 || i%4 == 0 {
+				sks := make([][32]byte, len(kv))
+				for j := range kv {
+					sks[j] = keys.SK[c.KeyOf[[48]byte(kv[j].Pubkey)]].Serialize()
+				}
+				var kst2 *phase0.BeaconStateView
+				if !b.NoPanic("KickStartStateWithSignatures/panic", func() { kst2, _, kzerr = phase0.KickStartStateWithSignatures(zspec, common.Root(hash), 12345, kv, sks) }) {
+					continue
+				}
+				if kzerr != nil {
+					b.Violate("KickStartStateWithSignatures/error", fmt.Sprintf("KickStartStateWithSignatures failed: %v (%s)", kzerr, desc), nil)
+					continue
+				}
+				// the reference sees the same validator data with the signatures this function is documented to make
+				// (the deposit root commits to them)
+				kd2 := make([]refspec.Deposit, len(kd))
+				for j := range kd {
+					d := kd[j].Data
+					msg := refspec.DepositMessage{Pubkey: d.Pubkey, WithdrawalCredentials: d.WithdrawalCredentials, Amount: d.Amount}
+					d.Signature = sim.Sign(keys.SK[c.KeyOf[d.Pubkey]], spk.SigningRoot(refssz.RootOf(spk.S.DepositMessage, msg), spk.ComputeDomain(refspec.DOMAIN_DEPOSIT, spk.ForkVersions[refspec.Phase0], refspec.Root{})))
+					kd2[j] = refspec.Deposit{Data: d}
+				}
+				kref2, kerr2 := spk.InitializeBeaconStateFromEth1(hash, 0, kd2)
+				if kerr2 != nil {
+					continue
+				}
+				kref2.GenesisTime = 12345
+				rb := spk.S.StateBytes(kref2)
+				if zb2, _ := sim.ZrntStateBytes(kst2); string(zb2) != string(rb) {
+					diff := diffStates(spk, kref.Fork, rb, zb2)
+					b.Violate("KickStartStateWithSignatures/state-mismatch", fmt.Sprintf("KickStartStateWithSignatures differs from the reference genesis (reference != zrnt) for %s: %v", desc, diff), nil)
+					continue
+				}
+				b.Inc("kickstart_with_signatures_compared")
+				if len(kv) >= 2 && kv[0].Pubkey != kv[1].Pubkey {
+					sks[0], sks[1] = sks[1], sks[0]
+					var werr error
+					if b.NoPanic("KickStartStateWithSignatures/panic", func() { _, _, werr = phase0.KickStartStateWithSignatures(zspec, common.Root(hash), 12345, kv, sks) }) {
+						if werr == nil {
+							b.Violate("KickStartStateWithSignatures/wrong-key-accepted", "secret keys that do not belong to the validators' pubkeys were accepted", nil)
+						} else {
+							b.Inc("kickstart_wrong_key_refused")
+						}
+					}
+				}
+			}
 		}
 	}
 }
